@@ -46,7 +46,7 @@ def class_src(c):
         if extra:
             if fd["field"]["t"] == "ref":
                 raise ValueError("class reference with options")
-            src = src[:-1] + (", " if not src[:-1].endswith("(") else "") + ", ".join(extra) + ")"
+            src = src[:-1] + (", " if not src.endswith("(") else "") + ", ".join(extra) + ")"
         lines.append("    %s = %s" % (fd["name"], src))
     if c.get("required") is not None:
         if c.get("spell_optional"):
